@@ -158,11 +158,17 @@ pub fn make_payload(mkey: u64, p: &Payload) -> (Vec<u8>, Vec<(String, String)>, 
         4 => {
             data.extend_from_slice(&mkey.to_be_bytes());
             let mut x = mkey | 1;
-            for _ in 0..p.len {
+            let mut block = Vec::with_capacity(4096);
+            for _ in 0..p.len.min(4096) {
                 x ^= x << 13;
                 x ^= x >> 7;
                 x ^= x << 17;
-                data.push(x as u8);
+                block.push(x as u8);
+            }
+            // long payloads repeat their first block
+            while data.len() < 8 + p.len as usize {
+                let take = (8 + p.len as usize - data.len()).min(block.len());
+                data.extend_from_slice(&block[..take]);
             }
         }
         _ => {
@@ -170,6 +176,13 @@ pub fn make_payload(mkey: u64, p: &Payload) -> (Vec<u8>, Vec<(String, String)>, 
         }
     }
     let mut attrs = Vec::new();
+    if p.kind == 5 {
+        // the same strings arranged differently in neighbouring messages of one request
+        let variants: [&[(&str, &str)]; 4] = [&[("from", "alice"), ("to", "bob")], &[("from", "bob"), ("to", "alice")], &[("x", "x")], &[("y", "y")]];
+        for (k, v) in variants[(mkey % 4) as usize] {
+            attrs.push((k.to_string(), v.to_string()));
+        }
+    }
     for i in 0..p.attrs {
         attrs.push((format!("k{}", i), format!("v{:x}-{}", mkey, i)));
     }
@@ -1122,6 +1135,20 @@ impl Interp {
                                 vec![],
                             );
                         }
+                        8 => {
+                            // status reads with a real nack in the middle of them
+                            if j == 3 {
+                                let ack_ids = self.resolve_refs(&s.name(), &[AckRef::Recent(0), AckRef::Recent(30_000)]);
+                                self.spawn_call(i, Req::Modify { sub: s.name(), ack_ids, secs: 0 }, vec![]);
+                            } else {
+                                self.spawn_call(i, Req::GetSub { name: s.name() }, vec![]);
+                            }
+                        }
+                        7 => {
+                            if self.streams.len() < 40 {
+                                self.open_stream(i, s.name(), 10);
+                            }
+                        }
                         _ => {
                             self.spawn_call(
                                 i,
@@ -1537,8 +1564,9 @@ pub fn run_case(case: &Case, cfg: &RunCfg) -> Trace {
         }));
         let mut it = Interp {
             sh: sh.clone(),
-            p: PublisherClient::new(Wire(routes.clone())),
-            s: SubscriberClient::new(Wire(routes.clone())),
+            // the harness's own client must not reject big answers (4 MiB is tonic's default)
+            p: PublisherClient::new(Wire(routes.clone())).max_decoding_message_size(usize::MAX),
+            s: SubscriberClient::new(Wire(routes.clone())).max_decoding_message_size(usize::MAX),
             app,
             pending: Vec::new(),
             streams: Vec::new(),
